@@ -85,7 +85,7 @@ pub fn build_calc(cfg: &Cfg) -> SmartCalc {
 }
 
 pub struct CalcCache {
-    map: HashMap<Cfg, SmartCalc>,
+    map: HashMap<Cfg, (SmartCalc, u32)>,
 }
 
 impl CalcCache {
@@ -93,10 +93,16 @@ impl CalcCache {
         CalcCache { map: HashMap::new() }
     }
     pub fn get(&mut self, cfg: &Cfg) -> &SmartCalc {
-        if self.map.len() > 48 && !self.map.contains_key(cfg) {
-            self.map.clear();
+        if self.map.len() > 64 && !self.map.contains_key(cfg) {
+            // keep the configurations that are in regular use, drop the one-off ones
+            self.map.retain(|_, (_, n)| *n >= 3);
+            if self.map.len() > 48 {
+                self.map.clear();
+            }
         }
-        self.map.entry(cfg.clone()).or_insert_with(|| build_calc(cfg))
+        let e = self.map.entry(cfg.clone()).or_insert_with(|| (build_calc(cfg), 0));
+        e.1 = e.1.saturating_add(1);
+        &e.0
     }
     /// drop a cached calculator (after a panic happened inside it, to be safe)
     pub fn forget(&mut self, cfg: &Cfg) {
